@@ -212,8 +212,11 @@ func (s *c16) Gen(r *kit.Rng) (kit.Op, bool) {
 					o.TokenData = wire.TokenData{}
 				}
 			}
-			ctor := r.Intn(3)
+			ctor := r.Intn(4)
 			op := kit.Op{K: "tx", D: kit.Hex(serTx(tx)), N: []int64{int64(ctor)}}
+			if ctor == 3 {
+				op.S = kit.Hex(r.Bytes(r.Range(1, 60))) // bytes following the transaction in the caller's buffer
+			}
 			if ctor == 2 {
 				op.S = simio.DrawBenign(r).String()
 			}
@@ -376,8 +379,15 @@ func (s *c16) Apply(o kit.Op) *kit.Violation {
 		case 0:
 			own, _ := deserTx(raw)
 			s.stx = bchutil.NewTx(own)
-		case 1:
-			t, err := bchutil.NewTxFromBytes(append([]byte(nil), raw...))
+		case 1, 3:
+			in := append([]byte(nil), raw...)
+			if o.Arg(0) == 3 {
+				// the transaction is the prefix of a longer buffer (e.g. the
+				// next message follows): only the transaction is wrapped
+				in = append(in, kit.Op{D: o.S}.Data()...)
+				s.st.Probe("tx-from-bytes-with-trailing-bytes")
+			}
+			t, err := bchutil.NewTxFromBytes(in)
 			if err != nil || t == nil {
 				return kit.V("construct:NewTxFromBytes-failed", "valid transaction rejected: %v", err)
 			}
@@ -527,6 +537,12 @@ func (s *c16) Apply(o kit.Op) *kit.Violation {
 		}
 		if pos != len(s.raw) {
 			return kit.V("stale-or-wrong:Block.TxLoc", "locations end at %d, block is %d bytes", pos, len(s.raw))
+		}
+		// the returned slice is the caller's: callers rebase these offsets in
+		// place; a later call must not be affected
+		for i := range locs {
+			locs[i].TxStart += 1000003
+			locs[i].TxLen = -1
 		}
 	case "b.msg":
 		m := s.blk.MsgBlock()
